@@ -66,6 +66,28 @@ func genThemedLibJob(r *Rand, k int, allowLoad bool, theme string) LibJob {
 		j.OutFmt = Pick(r, []string{"yaml", "yaml", "json0", "props", "xml"})
 		fs := GenMultiFiles(r.Fork("in"), MultiOpts{MaxFiles: 1, MaxDocs: 3, Format: j.InFmt, PlainOnly: r.Chance(1, 2)})
 		j.Input = Bytes(fs[0].Bytes())
+		if theme == "encode" && r.Chance(1, 5) {
+			// an encode operator that fails after it has produced a lot: nothing of it may show up later
+			var rows strings.Builder
+			rows.WriteString("id: " + DocID(r, k, 0) + "\nrows:\n")
+			for i := 0; i < 700; i++ {
+				rows.WriteString("  - [" + strconv.Itoa(i) + ", abcdefgh]\n")
+			}
+			rows.WriteString("  - {not: a row}\n")
+			j.InFmt, j.OutFmt = "yaml", "yaml"
+			j.Input = Bytes(rows.String())
+			j.Expr = Pick(r, []string{".rows | @csv", ".rows | @tsv", ".rows | to_csv"})
+			return j
+		}
+		if theme == "loadshared" {
+			// one file, loaded through different load operators by different evaluations
+			j.InFmt, j.OutFmt = "yaml", Pick(r, []string{"yaml", "json0"})
+			j.Input = Bytes("id: " + DocID(r, k, 0) + "\na: 1\n")
+			j.Files = []File{{Name: "shared.properties", Data: Bytes("v = 1\nw.x = two\n")}, {Name: "shared.yaml", Data: Bytes("v: 1\nw: {x: two}\n")}}
+			j.Expr = Pick(r, []string{".l = load(\"shared.properties\")", ".l = load_props(\"shared.properties\")", ".l = load_str(\"shared.properties\")", ".l = load_props(\"shared.properties\").w.x",
+				".l = load(\"shared.yaml\")", ".l = load_str(\"shared.yaml\")", ".l = load(\"shared.yaml\").w", ".l = (load_str(\"shared.yaml\") | length)", ".l = load_props(\"shared.yaml\")"})
+			return j
+		}
 		if theme == "goccy" {
 			// the library's second YAML decoder, reused over inputs that carry comments in the same places
 			j.InFmt = "goccy"
